@@ -168,6 +168,32 @@ def rule_node_edit(ctx, F):
         ctx.on_all_paths("W1", "ts_point_edit:writes-back-point", fn, [pt for pt, n in find(fn, "*point = start_point")], "result point is written back")
 
 
+def rule_range_edit(ctx, F):
+    """ts_range_edit maps both ends of a range with the *range* mapping (an end inside the replaced
+    text collapses to the edit's start), which deliberately differs from ts_point_edit there."""
+    fn = ctx.need_fn(F, "ts_range_edit", "W2")
+    if not fn:
+        return
+    if any(c.get("fn") == "ts_point_edit" for _, c in fn.calls()):
+        ctx.bad("W2", "ts_range_edit:own-mapping", "ts_range_edit now delegates to ts_point_edit: a range end inside replaced text moves to the edit's *new end* instead of its start, so start and end of a range are mapped differently (inverted ranges)")
+    else:
+        ctx.ok("W2", "ts_range_edit:own-mapping", "ts_range_edit does not delegate to ts_point_edit (the two mappings differ inside the edited region)")
+    for end in ("start", "end"):
+        clamp = [pt for pt, n in find(fn, "range->%s_byte = edit->start_byte" % end)]
+        shift = [pt for pt, n in find(fn, "range->%s_byte = edit->new_end_byte + (range->%s_byte - edit->old_end_byte)" % (end, end))]
+        if not clamp or not shift:
+            ctx.bad("W2", "ts_range_edit:%s-mapping" % end, "ts_range_edit no longer both shifts (>= old end) and clamps to the edit start (inside the edit) the range's %s" % end)
+            continue
+        ctx.gate("W2", fn, clamp, [("%s inside the replaced text collapses to the edit start" % end, "range->%s_byte > edit->start_byte" % end, True),
+                                   ("…only when not at/after the old end", "range->%s_byte >= edit->old_end_byte" % end, False)], accept_desc="clamping the range %s" % end)
+        ctx.gate("W2", fn, shift, [("%s at/after the old end is shifted" % end, "range->%s_byte >= edit->old_end_byte" % end, True)], accept_desc="shifting the range %s" % end)
+        pts = [pt for pt, n in find(fn, "range->%s_point = edit->start_point" % end)]
+        if pts:
+            ctx.ok("W2", "ts_range_edit:%s-point-follows" % end, "the point of the range %s is clamped together with its byte" % end)
+        else:
+            ctx.bad("W2", "ts_range_edit:%s-point-follows" % end, "the point of the range %s is no longer clamped together with its byte" % end)
+
+
 def run(ctx):
     for cfg in configs(ctx):
         ctx.config = cfg
@@ -176,6 +202,7 @@ def run(ctx):
         rule_tree_edit(ctx, F)
         rule_subtree_edit(ctx, F)
         rule_node_edit(ctx, F)
+        rule_range_edit(ctx, F)
     try:
         import rsrules
         rsrules.c10_rust(ctx)
